@@ -5,6 +5,7 @@ import (
 	"encoding/hex"
 	"encoding/json"
 	"fmt"
+	authtypes "github.com/cosmos/cosmos-sdk/x/auth/types"
 	ethcrypto "github.com/ethereum/go-ethereum/crypto"
 	"math/big"
 	"math/rand/v2"
@@ -614,6 +615,13 @@ func c10LogsVsBank(w *World, rec *BlockRecord, t *TxInfo) {
 		}
 		sort.Slice(addrs, func(i, j int) bool { return bytes.Compare(addrs[i][:], addrs[j][:]) < 0 })
 		r.At(rec.Height, t.Pos)
+		// staking calls in the same tx pay out pending rewards in every denomination the rewards pool holds (fees paid in
+		// this token end up there): the distribution module moved this denomination, the token contract did not
+		distr := common.BytesToAddress(authtypes.NewModuleAddress("distribution"))
+		if post.Balance(distr, denom).Cmp(pre.Balance(distr, denom)) != 0 {
+			r.Count("o:erc20_logs_vs_bank_skipped_rewards_paid_in_token")
+			continue
+		}
 		r.Count("o:erc20_logs_vs_bank_checked")
 		r.Probe("erc20_tx_with_several_transfer_logs", nLogs > 1)
 		for _, a := range addrs {
